@@ -808,7 +808,11 @@ impl<K: Kind> Scenario for Bf<K> {
                         pool.push(K::F::not_var(m, v).unwrap());
                     }
                 });
-                for _ in 0..count {
+                // `count` is the target number of stored nodes
+                for it in 0..2_000_000usize {
+                    if it % 64 == 0 && self.mref().with_manager_shared(|m| m.num_inner_nodes()) >= count {
+                        break;
+                    }
                     let a = rng.pick(&pool[pool.len().saturating_sub(2000)..]).clone();
                     let b = rng.pick(&pool).clone();
                     let r = match rng.below(3) {
